@@ -65,10 +65,10 @@ struct ListInfo
     static constexpr std::array<std::size_t, N> sizes{sizeof(typename PInfo<P>::T)...};
     static constexpr std::array<bool, N> trivial{is_trivial_value_v<typename PInfo<P>::T>...};
     static constexpr std::array<bool, N> tracked{is_tracked_v<typename PInfo<P>::T>...};
-    static constexpr std::array<bool, N> stamped{std::is_same_v<typename PInfo<P>::T, Stamped>...};
+    static constexpr std::array<int, N> stamp_kind{stamp_kind_v<typename PInfo<P>::T>...};
     static constexpr std::array<bool, N> cloned{std::is_same_v<typename PInfo<P>::T, Cloned>...};
     static constexpr bool ANY_CLONED = (std::is_same_v<typename PInfo<P>::T, Cloned> || ...);
-    static constexpr bool ANY_STAMPED = (std::is_same_v<typename PInfo<P>::T, Stamped> || ...);
+    static constexpr bool ANY_STAMPED = ((stamp_kind_v<typename PInfo<P>::T> != 0) || ...);
     // arithmetic value types: their spans can be emplaced from ranges of other arithmetic types
     static constexpr std::array<bool, N> convertible{std::is_arithmetic_v<typename PInfo<P>::T>...};
 
